@@ -156,6 +156,8 @@ META = {
         "lower-case hexadecimal uni/u glyph names are not judged (the repository test-suite pins their acceptance)",
         "symbolic TrueType fonts read through the embedded program's own cmap, CFF (FontFile3) built-in encodings and "
         "Differences naming ZapfDingbats glyphs (aN) are not generated",
+        "the advance of the space glyph of ZapfDingbats is not judged (its AFM metric is lost in pdfminer's table by a "
+        "key collision with a32 and no AFM is available offline)",
         "text of codes that depend on an unknown base-encoding name, and of codes outside Differences in a Type3 "
         "encoding without BaseEncoding, is not judged (counted under not_judged)",
         "fonts beyond the stated number of simultaneous deviations from the default font are not explored",
@@ -327,10 +329,11 @@ def build(vec: Tuple[int, ...]):
             import re as _re
 
             mm = _re.fullmatch(r"a(\d+)", name or "")
-            key = chr(int(mm.group(1))) if mm else (glyph_text or None)
+            key = chr(int(mm.group(1))) if mm else None  # other names: no such glyph in this font
             w = metrics.get(key, 0) if key else 0
             wsrc = "std14-metric-zapfdingbats"
-            jw = judged[code]
+            # the space glyph's own metric is lost in pdfminer's table (its key ' ' == chr(32) is taken by a32): not judged
+            jw = judged[code] and glyph_text != " "
         elif metrics is not None:
             w = metrics.get(glyph_text, 0) if glyph_text else 0
             wsrc = "std14-metric"
